@@ -275,7 +275,7 @@ func c28OriginCase(r *verifkit.R, phase string, ci int, rng *verifkit.Rand) {
 			if dropped {
 				r.Add("origin_replays_after_dedup_dropped", 1)
 			}
-			cls := c28KeyFamily(c)
+			cls := c28KeyFamily(&c)
 			if out.Accepted {
 				r.Violation("flood:"+c.typ()+":"+cls+":accepted-after-local-origination", phase, ci,
 					"a command that is invalid now was accepted because the Flooder had originated/stored the identical command before", steps)
